@@ -16,6 +16,7 @@ Variables lower upper : str -> str.
 Variable parse_tree : mapper -> tz -> res (option T * mapper * tz).
 Variable set_label : T -> option str -> T.
 Variable add_comments : T -> list str -> T.
+Variable vl : bool.
 Variable c : nscfg.
 Variable et : bool.
 
@@ -196,12 +197,16 @@ Proof.
 Qed.
 
 (* ---- the statement-level loops: each recursion follows a consumed token ---- *)
-Lemma link_loop_nf : forall fuel z v, (len z + 1 <= fuel)%nat -> link_loop fuel z v <> OutOfFuel.
+Lemma link_loop_nf : forall fuel z v, (len z + 1 <= fuel)%nat -> link_loop upper vl fuel z v <> OutOfFuel.
 Proof.
   induction fuel as [|f IH]; intros z v L; [lia|]. simpl.
   destruct (tok_is z K_SEMI); [discriminate|].
-  destruct (tok_is z K_TAXA).
-  { destruct (next_token z) as [z1|e|] eqn:E1; cbn [bind]; try discriminate.
+  assert (EQCASE : forall (cont : tz -> option str), (forall z3, cont z3 = cont z3) ->
+            forall w, (do z1 <- next_token z ;;
+                       if negb (tok_is z1 K_EQ) then Err ParseErr
+                       else do z2 <- next_token z1 ;; do z3 <- (if vl then next_token_ucase upper z2 else next_token z2) ;; link_loop upper vl f z3 (w z2)) <> OutOfFuel).
+  { intros _ _ w.
+    destruct (next_token z) as [z1|e|] eqn:E1; cbn [bind]; try discriminate.
     2:{ destruct (next_token_cases z) as [[e X]|[[z1 [X _]]|[z1 [X _]]]]; congruence. }
     destruct (negb (tok_is z1 K_EQ)) eqn:EQ; [discriminate|].
     assert (P1 : S (len z1) = len z).
@@ -210,39 +215,19 @@ Proof.
     destruct (next_token z1) as [z2|e|] eqn:E2; cbn [bind]; try discriminate.
     2:{ destruct (next_token_cases z1) as [[e X]|[[z' [X _]]|[z' [X _]]]]; congruence. }
     pose proof (suf_len _ _ (next_token_suf _ _ E2)) as L2.
-    destruct (next_token z2) as [z3|e|] eqn:E3; cbn [bind]; try discriminate.
-    2:{ destruct (next_token_cases z2) as [[e X]|[[z' [X _]]|[z' [X _]]]]; congruence. }
-    pose proof (suf_len _ _ (next_token_suf _ _ E3)) as L3.
-    destruct (tok_is z3 K_CHARACTERS).
-    - destruct (next_token z3) as [z4|e|] eqn:E4; cbn [bind]; try discriminate.
-      2:{ destruct (next_token_cases z3) as [[e X]|[[z' [X _]]|[z' [X _]]]]; congruence. }
-      destruct (negb (tok_is z4 K_EQ)); [discriminate|].
-      pose proof (suf_len _ _ (next_token_suf _ _ E4)) as L4.
-      destruct (next_token z4) as [z5|e|] eqn:E5; cbn [bind]; try discriminate.
-      2:{ destruct (next_token_cases z4) as [[e X]|[[z' [X _]]|[z' [X _]]]]; congruence. }
-      pose proof (suf_len _ _ (next_token_suf _ _ E5)) as L5.
-      destruct (next_token z5) as [z6|e|] eqn:E6; cbn [bind]; try discriminate.
-      2:{ destruct (next_token_cases z5) as [[e X]|[[z' [X _]]|[z' [X _]]]]; congruence. }
-      pose proof (suf_len _ _ (next_token_suf _ _ E6)) as L6.
-      apply IH. lia.
-    - apply IH. lia. }
-  destruct (tok_is z K_CHARACTERS); [|discriminate].
-  destruct (next_token z) as [z1|e|] eqn:E1; cbn [bind]; try discriminate.
-  2:{ destruct (next_token_cases z) as [[e X]|[[z1 [X _]]|[z1 [X _]]]]; congruence. }
-  destruct (negb (tok_is z1 K_EQ)) eqn:EQ; [discriminate|].
-  assert (P1 : S (len z1) = len z).
-  { destruct (next_token_cases z) as [[e X]|[[z1' [X L1]]|[z1' [X [A [B C]]]]]]; rewrite X in E1; inversion E1; subst; auto.
-    unfold tok_is in EQ. rewrite C in EQ. discriminate. }
-  destruct (next_token z1) as [z2|e|] eqn:E2; cbn [bind]; try discriminate.
-  2:{ destruct (next_token_cases z1) as [[e X]|[[z' [X _]]|[z' [X _]]]]; congruence. }
-  pose proof (suf_len _ _ (next_token_suf _ _ E2)) as L2.
-  destruct (next_token z2) as [z3|e|] eqn:E3; cbn [bind]; try discriminate.
-  2:{ destruct (next_token_cases z2) as [[e X]|[[z' [X _]]|[z' [X _]]]]; congruence. }
-  pose proof (suf_len _ _ (next_token_suf _ _ E3)) as L3.
+    assert (L3 : forall z3, (if vl then next_token_ucase upper z2 else next_token z2) = Ok z3 -> (len z3 <= len z2)%nat).
+    { intros z3 E3. destruct vl; [apply next_token_ucase_suf in E3 | apply next_token_suf in E3]; apply suf_len; assumption. }
+    destruct (if vl then next_token_ucase upper z2 else next_token z2) as [z3|e|] eqn:E3; cbn [bind]; try discriminate.
+    2:{ destruct vl; [destruct (ntu_cases z2) as [[e X]|[[z' [X _]]|[z' [X _]]]] | destruct (next_token_cases z2) as [[e X]|[[z' [X _]]|[z' [X _]]]]]; congruence. }
+    specialize (L3 z3 eq_refl).
+    apply IH. lia. }
+  destruct (tok_is z K_TAXA); [exact (EQCASE (fun _ => None) (fun _ => eq_refl) (fun z2 => z_cur z2))|].
+  destruct (tok_is z K_CHARACTERS); [exact (EQCASE (fun _ => None) (fun _ => eq_refl) (fun _ => v))|].
+  destruct (rntu_cases z) as [[e X]|[z1 [X L1]]]; rewrite X; cbn [bind]; try discriminate.
   apply IH. lia.
 Qed.
 
-Lemma parse_link_nf : forall fuel z, (len z + 1 <= fuel)%nat -> parse_link upper fuel z <> OutOfFuel.
+Lemma parse_link_nf : forall fuel z, (len z + 1 <= fuel)%nat -> parse_link upper vl fuel z <> OutOfFuel.
 Proof.
   intros fuel z L. unfold parse_link.
   destruct (next_token_ucase upper z) as [z1|e|] eqn:E; cbn [bind]; try discriminate.
@@ -296,9 +281,9 @@ Qed.
 Lemma parse_taxlabels_nf : forall fuel k ns, (len (k_z k) + 1 <= fuel)%nat -> parse_taxlabels lower c fuel k ns <> OutOfFuel.
 Proof.
   intros fuel k ns L. unfold parse_taxlabels.
-  destruct (next_token (k_z k)) as [z1|e|] eqn:E; cbn [bind]; try discriminate.
-  2:{ destruct (next_token_cases (k_z k)) as [[e X]|[[z' [X _]]|[z' [X _]]]]; congruence. }
-  pose proof (suf_len _ _ (next_token_suf _ _ E)) as L1.
+  destruct (require_next_token (k_z k)) as [z1|e|] eqn:E; cbn [bind]; try discriminate.
+  2:{ destruct (rnt_cases (k_z k)) as [[e X]|[z' [X _]]]; congruence. }
+  pose proof (suf_len _ _ (require_next_token_suf _ _ E)) as L1.
   destruct (taxlabels_loop lower c fuel z1 (ns_taxa_at k ns) (k_ntax k)) as [[taxa z2]|e|] eqn:E2; cbn [bind]; try discriminate.
   exfalso. apply (taxlabels_loop_nf fuel z1 (ns_taxa_at k ns) (k_ntax k)); [lia | assumption].
 Qed.
@@ -384,10 +369,10 @@ Qed.
 
 Notation PTS := (parse_tree_stmt T parse_tree set_label add_comments).
 Notation YTL := (y_tree_loop T upper parse_tree set_label add_comments).
-Notation YTS := (y_trees_loop T lower upper parse_tree set_label add_comments c).
-Notation YTB := (y_trees_block T lower upper parse_tree set_label add_comments c et).
-Notation YBL := (y_blocks_loop T lower upper parse_tree set_label add_comments c et).
-Notation YST := (y_items_from_stream T lower upper parse_tree set_label add_comments c et).
+Notation YTS := (y_trees_loop T lower upper parse_tree set_label add_comments vl c).
+Notation YTB := (y_trees_block T lower upper parse_tree set_label add_comments vl c et).
+Notation YBL := (y_blocks_loop T lower upper parse_tree set_label add_comments vl c et).
+Notation YST := (y_items_from_stream T lower upper parse_tree set_label add_comments vl c et).
 
 Lemma pts_nf : forall m z, PTS m z <> OutOfFuel.
 Proof.
@@ -461,7 +446,7 @@ Proof.
     set (k1 := set_z k z1).
     assert (LK : (len (k_z k1) + 2 <= f)%nat) by (simpl; lia).
     destruct (otok_is (z_cur (k_z k1)) K_LINK).
-    { rewrite ybind_ylift. destruct (parse_link upper (S f) (k_z k1)) as [[lt z2]|e|] eqn:E2; try (simpl; discriminate).
+    { rewrite ybind_ylift. destruct (parse_link upper vl (S f) (k_z k1)) as [[lt z2]|e|] eqn:E2; try (simpl; discriminate).
       - apply IH. apply parse_link_suf in E2. apply suf_len in E2. simpl in *. lia.
       - exfalso. apply (parse_link_nf (S f) (k_z k1)); [lia | assumption]. }
     destruct (otok_is (z_cur (k_z k1)) K_TITLE).
@@ -537,7 +522,7 @@ Proof.
     { apply ybind_nf.
       - apply y_trees_block_nf. lia.
       - intros o [k5 g5] HY. apply IH.
-        apply (y_trees_block_suf T lower upper parse_tree set_label add_comments c et parse_tree_suf) in HY.
+        apply (y_trees_block_suf T lower upper parse_tree set_label add_comments vl c et parse_tree_suf) in HY.
         unfold ksuf in HY. apply suf_len in HY. unfold len in *. lia. }
     destruct (otok_is (z_cur (k_z k4)) K_BEGIN); [simpl; discriminate|].
     rewrite ybind_ylift. unfold zstep.
@@ -557,11 +542,11 @@ Qed.
 Lemma y_items_nf : forall fuel k g, (len (k_z k) + 2 <= fuel)%nat -> snd (YST fuel k g) <> OutOfFuel.
 Proof.
   intros fuel k g L. unfold y_items_from_stream. rewrite ybind_ylift. unfold zstep.
-  destruct (next_token (k_z k)) as [z1|e|] eqn:E; cbn [bind]; try (simpl; discriminate).
-  2:{ destruct (next_token_cases (k_z k)) as [[e X]|[[z' [X _]]|[z' [X _]]]]; congruence. }
+  destruct (require_next_token (k_z k)) as [z1|e|] eqn:E; cbn [bind]; try (simpl; discriminate).
+  2:{ destruct (rnt_cases (k_z k)) as [[e X]|[z' [X _]]]; congruence. }
   simpl k_z. destruct (z_cur z1); [|simpl; discriminate].
   destruct (negb (str_eqb (upper s) K_NEXUS)); [simpl; discriminate|].
-  apply y_blocks_loop_nf. pose proof (suf_len _ _ (next_token_suf _ _ E)). simpl. lia.
+  apply y_blocks_loop_nf. pose proof (suf_len _ _ (require_next_token_suf _ _ E)). simpl. lia.
 Qed.
 
 End Fuel.
